@@ -494,6 +494,7 @@ type SpecFunc struct {
 	Line    int
 	File    string
 	Trigger bool // emit quantified definition with trigger instead of fuel unfolding
+	Valued  bool // uninterpreted function of the abstract VALUES of its string arguments (congruent w.r.t. string equality)
 	Inline  bool // expanded at every call site (bounded quantifiers with literal ranges are unrolled)
 }
 
@@ -876,6 +877,10 @@ func parseSpecDecl(s string) (*SpecFunc, error) {
 			continue
 		case strings.HasPrefix(s, "inline "):
 			sf.Inline = true
+			s = strings.TrimSpace(s[7:])
+			continue
+		case strings.HasPrefix(s, "valued "):
+			sf.Valued = true
 			s = strings.TrimSpace(s[7:])
 			continue
 		}
